@@ -548,8 +548,8 @@ func (n *Call) String() string {
 		if fn.Op == OperatorPointer || fn.Op == OperatorReceive {
 			s = "(" + s + ")"
 		}
-	case *FuncType:
-		if len(fn.Result) == 0 {
+	case *ArrayType, *FuncType, *MapType, *SliceType:
+		if endsWithFuncWithoutResult(fn) {
 			s = "(" + s + ")"
 		}
 	case *ChanType:
@@ -567,6 +567,38 @@ func (n *Call) String() string {
 	}
 	s += ")"
 	return s
+}
+
+// endsWithFuncWithoutResult reports whether the string representation of the
+// type expression typ ends with a function type without result. If such a
+// type is followed by a left parenthesis, as in a conversion, the parenthesis
+// is parsed as the start of the result of the function type.
+func endsWithFuncWithoutResult(typ Expression) bool {
+	for {
+		switch t := typ.(type) {
+		case *ArrayType:
+			typ = t.ElementType
+		case *ChanType:
+			typ = t.ElementType
+		case *FuncType:
+			if len(t.Result) == 0 {
+				return true
+			}
+			if len(t.Result) > 1 || t.Result[0].Ident != nil {
+				// The result is printed in parenthesis.
+				return false
+			}
+			typ = t.Result[0].Type
+		case *MapType:
+			typ = t.ValueType
+		case *SliceType:
+			typ = t.ElementType
+		case *UnaryOperator:
+			typ = t.Expr
+		default:
+			return false
+		}
+	}
 }
 
 // Case node represents "case" and "default" statements.
